@@ -179,6 +179,20 @@ def check_c12(out, tier, seed):
     jb = {"linkhist": history_jobs(cgs, hk)}
     core.run_pipeline(out, jb, [("gfa1s", 3)] if tier == "quick" else [("gfa1s", 4), ("gfa1", 3)], "C12")
     out.add_cov(states=st[1], transitions=st[0])
+    # symbolic bounded check (Apalache): the same laws for ALL CIGARs of <= 6 operations with
+    # operation lengths 1..1000 (far beyond the TLC enumeration)
+    import shutil, subprocess
+    if shutil.which("apalache-mc"):
+        wd = tlc.workdir("apalache-cigar")
+        p = subprocess.run(["apalache-mc", "check", "--length=6", "--inv=Laws", "--out-dir=" + wd,
+                            os.path.join(tlc.SPEC, "apalache", "CigarApa.tla")], cwd=wd, stdout=subprocess.PIPE,
+                           stderr=subprocess.STDOUT, text=True, timeout=1800)
+        if "EXITCODE: OK" not in p.stdout:
+            raise tlc.MachineryError("Apalache check of the CIGAR laws failed:\n" + p.stdout[-1500:])
+        out.add_cov(apalache_cigar_laws="no error up to 6 operations, lengths 1..1000")
+        shutil.rmtree(wd, ignore_errors=True)
+    else:
+        out.add_cov(apalache_cigar_laws="skipped: apalache-mc not on PATH")
     out.cov["rule"] = ("all CIGARs of <= 3 operations over {M,I,D,P,=,X,H} x lengths {1,2} (2955 incl. '*'; quick: all of "
                        "<= 2 operations + 250 sampled) x 8 endpoint shapes (4 orientation pairs x {distinct, self incl. "
                        "hairpin}): complement twice, lengths, equivalence tests in both argument orders and repeated, "
